@@ -1,5 +1,116 @@
-// Extension commands of the correspondence driver (constraint sets, addons).
+// Extension commands of the correspondence driver: constraint sets.
 #include "driver_ext.h"
-struct ExtState { int dummy; };
+#include <rbdl/Constraints.h>
+#include <cmath>
+#include <cstring>
+#include <algorithm>
+
+struct ExtState {
+  ConstraintSet cs; bool bound; std::vector<double> vplus;
+  ExtState() : bound(false) {}
+};
 void ext_free(ExtState *e) { delete e; }
-bool run_ext(Ctx &C, const std::string &cmd, Toks &T, long seq) { return false; }
+static ExtState &E(Ctx &C) { if (!C.ext) C.ext = new ExtState(); return *C.ext; }
+static void bind(Ctx &C) { ExtState &e = E(C); if (!e.bound) { e.cs.Bind(*C.model); e.bound = true; } }
+
+// solve the consistent symmetric system A y = b by elimination with full pivoting; pivots below
+// 1e-9 * max|A| are treated as zero and their unknowns set to zero (redundant constraints)
+static VectorNd solve_consistent(MatrixNd A, VectorNd b) {
+  int n = A.rows(); std::vector<int> colp(n); for (int i = 0; i < n; i++) colp[i] = i;
+  double amax = 0.; for (int i = 0; i < n; i++) for (int j = 0; j < n; j++) amax = std::max(amax, fabs(A(i, j)));
+  double thr = 1e-9 * amax; int rank = 0;
+  for (int k = 0; k < n; k++) {
+    int pi = k, pj = k; double best = -1.;
+    for (int i = k; i < n; i++) for (int j = k; j < n; j++) if (fabs(A(i, j)) > best) { best = fabs(A(i, j)); pi = i; pj = j; }
+    if (best <= thr) break;
+    A.row(k).swap(A.row(pi)); std::swap(b[k], b[pi]); A.col(k).swap(A.col(pj)); std::swap(colp[k], colp[pj]);
+    for (int i = k + 1; i < n; i++) { double d = A(i, k) / A(k, k); for (int j = k; j < n; j++) A(i, j) -= d * A(k, j); b[i] -= d * b[k]; }
+    rank = k + 1;
+  }
+  VectorNd z = VectorNd::Zero(n);
+  for (int i = rank - 1; i >= 0; i--) { double s = b[i]; for (int j = i + 1; j < rank; j++) s -= A(i, j) * z[j]; z[i] = s / A(i, i); }
+  VectorNd y = VectorNd::Zero(n); for (int i = 0; i < n; i++) y[colp[i]] = z[i];
+  return y;
+}
+// velocity consistent with the constraints: qd - G^T (G G^T)^+ G qd
+static VectorNd project(Ctx &C, const VectorNd &q, const VectorNd &qd) {
+  Model &m = *C.model; ConstraintSet &cs = E(C).cs;
+  MatrixNd G = MatrixNd::Zero(cs.size(), m.qdot_size); CalcConstraintsJacobian(m, q, cs, G, true);
+  MatrixNd A = G * G.transpose(); VectorNd b = G * qd;
+  return qd - G.transpose() * solve_consistent(A, b);
+}
+
+bool run_ext(Ctx &C, const std::string &cmd, Toks &T, long seq) {
+  Model &m = *C.model;
+  if (cmd == "csolver") { long k = T.integer(); E(C).cs.linear_solver = (LinearSolver)k; return true; }
+  if (cmd == "contact") {
+    unsigned id = C.ref(T.str()); Vector3d p = T.v3(), n = T.v3();
+    E(C).cs.AddContactConstraint(id, p, n); return true;
+  }
+  if (cmd == "loop" || cmd == "loopauto") {
+    unsigned idp = C.ref(T.str()), ids = C.ref(T.str());
+    Matrix3d Ep = T.m3(); Vector3d rp = T.v3();
+    SpatialTransform Xp(Ep, rp), Xs;
+    if (cmd == "loop") { Matrix3d Es = T.m3(); Vector3d rs = T.v3(); Xs = SpatialTransform(Es, rs); }
+    Vector3d off(0., 0., 0.); if (cmd == "loopauto") off = T.v3();
+    long nax = T.integer(); std::vector<SpatialVector> ax; for (long k = 0; k < nax; k++) ax.push_back(T.sv());
+    long baum = T.integer(); double ts = T.num();
+    if (cmd == "loopauto") {
+      VectorNd q0 = T.vec();
+      UpdateKinematicsCustom(m, &q0, NULL, NULL);
+      Matrix3d Rp = CalcBodyWorldOrientation(m, q0, idp, false).transpose();
+      Vector3d pp = CalcBodyToBaseCoordinates(m, q0, idp, Vector3d(0., 0., 0.), false);
+      Matrix3d Rs = CalcBodyWorldOrientation(m, q0, ids, false).transpose();
+      Vector3d ps = CalcBodyToBaseCoordinates(m, q0, ids, Vector3d(0., 0., 0.), false);
+      Matrix3d Ra = Rp * Ep; Vector3d ra = pp + Rp * rp;
+      Xs = SpatialTransform(Rs.transpose() * Ra, Rs.transpose() * (ra + Ra * off - ps));
+    }
+    for (long k = 0; k < nax; k++) E(C).cs.AddLoopConstraint(idp, ids, Xp, Xs, ax[k], baum != 0, ts);
+    return true;
+  }
+  if (cmd == "cjac") {
+    bind(C); long flag = T.integer(); VectorNd q = T.vec(); ConstraintSet &cs = E(C).cs;
+    MatrixNd G = MatrixNd::Zero(cs.size(), m.qdot_size); CalcConstraintsJacobian(m, q, cs, G, flag != 0);
+    out.begin(seq, "G"); out.mat(G); out.end(); return true;
+  }
+  if (cmd == "cerr") {
+    bind(C); long flag = T.integer(); VectorNd q = T.vec(); ConstraintSet &cs = E(C).cs;
+    VectorNd e = VectorNd::Zero(cs.size()); CalcConstraintsPositionError(m, q, cs, e, flag != 0);
+    out.line(seq, "err", e); return true;
+  }
+  if (cmd == "cverr") {
+    bind(C); long flag = T.integer(); VectorNd q = T.vec(), qd = T.vec(); ConstraintSet &cs = E(C).cs;
+    VectorNd e = VectorNd::Zero(cs.size()); CalcConstraintsVelocityError(m, q, qd, cs, e, flag != 0);
+    out.line(seq, "errd", e); return true;
+  }
+  if (cmd == "csys") {
+    bind(C); bool feas = false; if (T.t[T.i] == "feas") { T.str(); feas = true; }
+    VectorNd q = T.vec(), qd = T.vec(), tau = T.vec();
+    if (feas) qd = project(C, q, qd); std::vector<SpatialVector> *fe = C.fext(T); ConstraintSet &cs = E(C).cs;
+    CalcConstrainedSystemVariables(m, q, qd, tau, cs, true, fe);
+    out.begin(seq, "H"); out.mat(cs.H); out.end(); out.line(seq, "C", cs.C);
+    out.begin(seq, "G"); out.mat(cs.G); out.end(); out.line(seq, "gamma", cs.gamma);
+    out.line(seq, "err", cs.err); out.line(seq, "errd", cs.errd); return true;
+  }
+  if (cmd == "fdc") {
+    bind(C); std::string meth = T.str(); bool feas = false; if (T.t[T.i] == "feas") { T.str(); feas = true; }
+    VectorNd q = T.vec(), qd = T.vec(), tau = T.vec(); std::vector<SpatialVector> *fe = C.fext(T);
+    if (feas) qd = project(C, q, qd);
+    ConstraintSet &cs = E(C).cs; VectorNd qdd = VectorNd::Zero(m.qdot_size);
+    if (meth == "direct") ForwardDynamicsConstraintsDirect(m, q, qd, tau, cs, qdd, true, fe);
+    else if (meth == "range") ForwardDynamicsConstraintsRangeSpaceSparse(m, q, qd, tau, cs, qdd, true, fe);
+    else if (meth == "null") ForwardDynamicsConstraintsNullSpace(m, q, qd, tau, cs, qdd, true, fe);
+    else if (meth == "kokkevis") ForwardDynamicsContactsKokkevis(m, q, qd, tau, cs, qdd);
+    out.line(seq, "qdd", qdd); out.line(seq, "force", cs.force); return true;
+  }
+  if (cmd == "imp") {
+    bind(C); std::string meth = T.str(); VectorNd q = T.vec(), qdm = T.vec(), vp = T.vec(); ConstraintSet &cs = E(C).cs;
+    for (int k = 0; k < vp.size() && k < cs.v_plus.size(); k++) cs.v_plus[k] = vp[k];
+    VectorNd qdp = VectorNd::Zero(m.qdot_size);
+    if (meth == "direct") ComputeConstraintImpulsesDirect(m, q, qdm, cs, qdp);
+    else if (meth == "range") ComputeConstraintImpulsesRangeSpaceSparse(m, q, qdm, cs, qdp);
+    else ComputeConstraintImpulsesNullSpace(m, q, qdm, cs, qdp);
+    out.line(seq, "qdplus", qdp); out.line(seq, "impulse", cs.impulse); return true;
+  }
+  return false;
+}
